@@ -34,16 +34,55 @@ impl SharedHistory {
     }
 
     /// Provides access to the underlying history.
+    #[cfg(not(routinator_verif))]
     pub fn read(&self) -> impl ops::Deref<Target = PayloadHistory> + '_ {
         self.0.read().expect("Payload history lock poisoned")
+    }
+
+    /// Provides access to the underlying history, reporting to the hooks.
+    #[cfg(routinator_verif)]
+    pub fn read(&self) -> impl ops::Deref<Target = PayloadHistory> + '_ {
+        crate::verif::Guard::acquire(
+            &*self.0, crate::verif::LockMode::Read,
+            || self.0.read().expect("Payload history lock poisoned")
+        )
     }
 
     /// Provides write access to the underlying history.
     ///
     /// This is private because access is only through dedicated update
     /// methods.
+    #[cfg(not(routinator_verif))]
     fn write(&self) -> impl ops::DerefMut<Target = PayloadHistory> + '_ {
         self.0.write().expect("Payload history lock poisoned")
+    }
+
+    /// Provides write access, reporting to the hooks.
+    #[cfg(routinator_verif)]
+    fn write(&self) -> impl ops::DerefMut<Target = PayloadHistory> + '_ {
+        crate::verif::Guard::acquire(
+            &*self.0, crate::verif::LockMode::Write,
+            || self.0.write().expect("Payload history lock poisoned")
+        )
+    }
+
+    /// Adds `n` to the serial of every retained delta.
+    ///
+    /// This is the state the history would be in after `n` more updates
+    /// as far as serial numbers are concerned.
+    #[cfg(routinator_verif)]
+    pub fn verif_shift_serials(&self, n: u32) {
+        let mut history = self.write();
+        let deltas = history.deltas.iter().map(|delta| {
+            Arc::new(delta.verif_shift_serial(n))
+        }).collect();
+        history.deltas = deltas;
+    }
+
+    /// Returns the number of retained deltas.
+    #[cfg(routinator_verif)]
+    pub fn verif_delta_count(&self) -> usize {
+        self.read().deltas.len()
     }
 
     /// Updates the history.
@@ -71,6 +110,9 @@ impl SharedHistory {
         let delta = current.as_ref().and_then(|current| {
             PayloadDelta::construct(current, &snapshot, serial)
         });
+
+        #[cfg(routinator_verif)]
+        crate::verif::point("history.update.between");
 
         let mut history = self.write();
         history.metrics = Some(metrics.into());
